@@ -1090,9 +1090,9 @@ func Run(o *hx.Out, g *hx.Rng, tier string) {
 	g = g.Fork() // hx.NewRng(seed) streams of consecutive seeds are shifted copies of each other
 	x := &runner{o: o, g: g, tier: tier}
 	cfgs := configs()
-	rounds, steps := 1, 120
+	rounds, steps := 3, 300
 	if tier == "thorough" {
-		rounds, steps = 6, 400
+		rounds, steps = 24, 800
 	}
 	for r := 0; r < rounds; r++ {
 		for k := 1; k <= 8; k++ {
